@@ -177,10 +177,13 @@ Definition packn (k : nat) (n : N) : option bytes := pack k (Z.of_N n).
 Definition two_parts (s : str) : option (str * str) :=
   match split_on 58 s with [a; b] => Some (a, b) | _ => None end.
 
+(** construct_mac: exactly six '-' groups, each int(g, 16) packed as one octet *)
 Definition mac_octets (s : str) : option bytes :=
   l <- parse_mac_parts s ;;
-  r <- map_opt (pack 1) l ;;
-  Some (concat r).
+  if Nat.eqb (length l) 6 then
+    r <- map_opt (pack 1) l ;;
+    Some (concat r)
+  else None.
 
 (** the struct.pack lines of construct, by layout; [k] is the type-code constant packed first *)
 Definition ec_as2 (k : N) (s : str) : option bytes :=
